@@ -1,11 +1,60 @@
 import OmbottModel.Model.BodyMixin
+import OmbottModel.Lemmas.Body
+import OmbottModel.Lemmas.Chunked
 import OmbottModel.Gen.Body
 /-!
 C05 — Chunked transfer decoding is exact and rejects every truncation.
-Property theorems only; helper lemmas live in `Lemmas/Chunked.lean`.
+Property theorems only; helper lemmas live in `Lemmas/Chunked.lean`, `Lemmas/Body.lean`.
+
+`r : Rec` is `wsgi.input` (bytes still to come, read schedule, call record); quantifying over it
+quantifies over every read fragmentation.  `buf` is `max_memfile_size`, `max` is
+`max_body_size`.  A legal encoding is `encodeChunked chunks lastSpelling lastExt trailer` with
+`LegalChunk` chunks (`Lemmas/Chunked.lean`): size spelled in any way `int(x, 16)` reads as the
+payload length without CR, LF or `;`, optional extension `;…` free of LF, non-empty payload.
 -/
 namespace Ombott.Chunked
 open Py Ombott.Body
+
+/-- what makes `encodeChunked chunks ls le trailer` a legal encoding all of whose size lines
+(CRLF included) fit a buffer of `buf` bytes -/
+structure LegalEncoding (buf : Nat) (chunks : List Chunk) (ls le : Bytes) : Prop where
+  chunks : ∀ c ∈ chunks, LegalChunk c ∧ c.spelling.length + c.ext.length + 2 ≤ buf
+  last : LegalLine ls le
+  zero : pyIntHex ls = some 0
+  lastFits : ls.length + le.length + 2 ≤ buf
+
+/-- **exact decoding**: for every legal encoding in which each size line, its CRLF included, is at
+most `buf` bytes, every read schedule, every trailer, and a payload within the size limit,
+`_body_read(chunked=True)` returns exactly the concatenation of the chunk payloads (file-backed
+iff longer than the threshold) and leaves the stream right behind the last-chunk line. -/
+theorem chunked_decode (buf : Nat) (max : Option Nat) (cl : Int) (chunks : List Chunk)
+    (ls le trailer : Bytes) (r : Rec)
+    (hleg : LegalEncoding buf chunks ls le)
+    (hd : r.st.data = encodeChunked chunks ls le trailer)
+    (hmax : overMax max (payloadOf chunks).length = false) :
+    ∃ r', bodyRead buf cl true max r = (.ok (bodyOf buf (payloadOf chunks)), r') ∧
+      r'.st.data = trailer ∧
+      r'.pos + trailer.length = r.pos + (encodeChunked chunks ls le trailer).length := by
+  obtain ⟨r', h1, h2, h3⟩ := iterChunked_decode buf max ls le trailer hleg.last hleg.zero hleg.lastFits
+    chunks r {} hleg.chunks hd (SinkInv.init buf) (by simpa using hmax)
+  exact ⟨r', by simp [bodyRead, h1, bodyOf_eq], h2, h3⟩
+
+/-- **totality**: for every byte string, schedule, buffer and limit the chunked reader returns a
+body, `BodyParsingError` or `BodySizeError` — no other exception (and it terminates: the model
+function is total, its recursion is on the unread data). -/
+theorem chunked_total (buf : Nat) (max : Option Nat) (cl : Int) (r : Rec) (e : Err)
+    (h : (bodyRead buf cl true max r).1 = .error e) :
+    e = .bodyParsingError ∨ e = .bodySizeError := by
+  simp only [bodyRead, if_true] at h
+  exact iterChunked_err buf max _ r {} e rfl h
+
+/-- the same for Content-Length framing: the only error is `BodySizeError` -/
+theorem cl_total (buf : Nat) (max : Option Nat) (cl : Int) (r : Rec) (e : Err)
+    (h : (bodyRead buf cl false max r).1 = .error e) : e = .bodySizeError := by
+  simp only [bodyRead, iterBody, Bool.false_eq_true, if_false] at h
+  rcases readParts_err false buf max _ r {} e h with h | ⟨h, -⟩
+  · exact h
+  · cases h
 
 /-- with the `errors_map` of the source both client errors of the body reader are answered 4xx -/
 theorem chunked_400 (e : Err) (h : e = .bodyParsingError ∨ e = .bodySizeError) :
@@ -13,5 +62,19 @@ theorem chunked_400 (e : Err) (h : e = .bodyParsingError ∨ e = .bodySizeError)
   rcases h with rfl | rfl
   · exact ⟨400, by decide, by decide, by decide⟩
   · exact ⟨413, by decide, by decide, by decide⟩
+
+section NonVacuity
+/-- a legal two-chunk encoding with upper-case hex, a leading zero, an extension and a trailer,
+all size lines within a buffer of 8 -/
+example : LegalEncoding 8
+    [⟨[104, 105], [50], []⟩, ⟨List.replicate 10 7, [48, 65], [59, 120]⟩] [48] [] :=
+  ⟨by
+    intro c hc
+    simp only [List.mem_cons, List.not_mem_nil, or_false] at hc
+    rcases hc with rfl | rfl
+    · exact ⟨⟨⟨by decide, Or.inl rfl⟩, by decide, by decide⟩, by decide⟩
+    · exact ⟨⟨⟨by decide, Or.inr ⟨[120], rfl, by decide⟩⟩, by decide, by decide⟩, by decide⟩,
+   ⟨by decide, Or.inl rfl⟩, by decide, by decide⟩
+end NonVacuity
 
 end Ombott.Chunked
